@@ -17,11 +17,11 @@ import (
 // item is one typed value with its writer, the two readers and a reference decoder.
 type item struct {
 	name  string
-	write func(b *bytex.BufferX) string                 // returns "" or the error text
-	readB func(b *bytex.BufferX) (string, error)        // printable value
-	readR func(r *bytex.ReaderX) (string, error)        // nil: the stream reader has no such method
-	ref   func(in []byte) (val string, n int, ok bool)  // reference decoder on raw bytes
-	want  string                                        // "" = nothing is written (refused write)
+	write func(b *bytex.BufferX) string                // returns "" or the error text
+	readB func(b *bytex.BufferX) (string, error)       // printable value
+	readR func(r *bytex.ReaderX) (string, error)       // nil: the stream reader has no such method
+	ref   func(in []byte) (val string, n int, ok bool) // reference decoder on raw bytes
+	want  string                                       // "" = nothing is written (refused write)
 	kind  string
 }
 
@@ -201,9 +201,15 @@ func items() []item {
 					}
 					return ""
 				},
-				readB: func(b *bytex.BufferX) (string, error) { x, e := b.ReadLimitString(uint32(lim)); return fmt.Sprintf("%q", x), e },
-				readR: func(r *bytex.ReaderX) (string, error) { x, e := r.ReadLimitString(uint32(lim)); return fmt.Sprintf("%q", x), e },
-				ref:   refString(int64(lim))})
+				readB: func(b *bytex.BufferX) (string, error) {
+					x, e := b.ReadLimitString(uint32(lim))
+					return fmt.Sprintf("%q", x), e
+				},
+				readR: func(r *bytex.ReaderX) (string, error) {
+					x, e := r.ReadLimitString(uint32(lim))
+					return fmt.Sprintf("%q", x), e
+				},
+				ref: refString(int64(lim))})
 		}
 	}
 	for _, v := range []string{"x", "xyz"} {
@@ -288,8 +294,14 @@ func roundTrip(c *seq.Ctx, its []item, sq []int) {
 		src := &fragReader{data: enc, sizes: nil}
 		rx := bytex.NewReaderX(src)
 		paths := []path{
-			{"same-buffer", func(it *item) (string, error, string, bool) { v, e, p := guard(func() (string, error) { return it.readB(b) }); return v, e, p, true }, b.Len},
-			{"readable-buffer", func(it *item) (string, error, string, bool) { v, e, p := guard(func() (string, error) { return it.readB(rb) }); return v, e, p, true }, rb.Len},
+			{"same-buffer", func(it *item) (string, error, string, bool) {
+				v, e, p := guard(func() (string, error) { return it.readB(b) })
+				return v, e, p, true
+			}, b.Len},
+			{"readable-buffer", func(it *item) (string, error, string, bool) {
+				v, e, p := guard(func() (string, error) { return it.readB(rb) })
+				return v, e, p, true
+			}, rb.Len},
 			{"stream-reader", func(it *item) (string, error, string, bool) {
 				if it.readR == nil {
 					return "", nil, "", false
@@ -511,7 +523,9 @@ func fragmentation(c *seq.Ctx, its []item, maxLen int) {
 						cls = "fragmented"
 					}
 					sig := "ReaderX disagrees with BufferX when the source reader fragments (" + cls + ", eofWithData=" + fmt.Sprint(eofStyle) + ")"
-					c.Case(fmt.Sprintf("frag/%s/%v/%v", cls, eofStyle, cut == len(enc)), bad, sig, func() interface{} { return map[string]interface{}{"items": names, "cut": cut, "chunks": sizes, "eofWithData": eofStyle} })
+					c.Case(fmt.Sprintf("frag/%s/%v/%v", cls, eofStyle, cut == len(enc)), bad, sig, func() interface{} {
+						return map[string]interface{}{"items": names, "cut": cut, "chunks": sizes, "eofWithData": eofStyle}
+					})
 				}
 			})
 		}
